@@ -88,7 +88,7 @@ m('C06', 'strategy.py', "            if process.application_name in job_applicat
   "            if False:\n                self.logger.debug(f'RunningFailureHandler.trigger_restart_process_jobs:", 'C06.R5|trigger|trigger_restart_process_jobs')
 m('C06', SM, "        self.supvisors.failure_handler.trigger_jobs()\n        # check state machine", "        # check state machine", 'C06.R5|trigger|periodic')
 m('C06', 'context.py', "                failed_processes.update({process for process in status.running_processes()", "                failed_processes = ({process for process in status.running_processes()", 'C06.R6|accumulate')
-m('C06', 'commander.py', "        for command in sum(self.planned_jobs.values(), []):\n            if command.process in failed_processes:\n                failed_processes.remove(command.process)", "        pass", 'C06.R6|planned-win')
+m('C06', 'commander.py', "        for command in sum(self.planned_jobs.values(), []):\n            if command.process in failed_processes:\n                failed_processes.remove(command.process)", "        for command in sum(self.planned_jobs.values(), []):", 'C06.R6|planned-win')
 # ---- C07
 m('C07', 'instancestatus.py', "        return self.has_active_state() and counter_diff > self.supvisors.options.inactivity_ticks", "        return self.has_active_state() and counter_diff >= self.supvisors.options.inactivity_ticks", 'C07.R6|threshold|is_inactive')
 m('C07', 'instancestatus.py', "SupvisorsInstanceStates.ISOLATED: ()", "SupvisorsInstanceStates.ISOLATED: (SupvisorsInstanceStates.CHECKING,)", 'C07.R3|row-extra|ISOLATED')
@@ -129,6 +129,10 @@ m('C10', 'context.py', "            app_proc = self.check_process(status, event,
 m('C10', SM, "        self.logger.debug(f'WorkingState.common_next: invalid={self.lost_instances}')\n        if self.lost_instances:", "        self.logger.debug(f'WorkingState.common_next: invalid={self.lost_instances}')\n        if self.lost_processes:", 'C10.R4|lost|_WorkingState._common_next')
 m('C10', 'commander.py', "        for command in list(self.current_jobs):\n            # if no more pending request", "        for command in self.current_jobs:\n            # if no more pending request", 'C10.R4|lost|ApplicationJobs')
 m('C10', 'commander.py', "        self._wait_ticks = math.ceil(wait_secs / Tick5Event.period) + self.minimum_ticks", "        self._wait_ticks = math.floor(wait_secs / Tick5Event.period) + self.minimum_ticks", 'C10.R5|ticks|setter')
+m('C04', 'commander.py', "            if command.identifier in invalidated_identifiers:\n                command.identifier = None", "            pass", 'C04.R1|preassigned-lost')
+m('C10', 'commander.py', "            if command.identifier in invalidated_identifiers:\n                command.identifier = None", "            pass", 'C10.R4|preassigned-lost')
+m('C10', 'statemodes.py', "        if new_state in [SupvisorsInstanceStates.STOPPED, SupvisorsInstanceStates.ISOLATED]:", "        if new_state == SupvisorsInstanceStates.STOPPED:", 'C10.R4|modes-reset')
+m('C09', 'statemachine.py', "                                                   SupvisorsStates.OPERATION,\n                                                   SupvisorsStates.RESTARTING,", "                                                   SupvisorsStates.OPERATION,", 'C09.R4|reroute|table')
 # ---- C11
 m('C11', 'process.py', "            if self.stopped():\n                self.running_identifiers = {identifier}", "            if not self.running():\n                self.running_identifiers = {identifier}", 'C11.R3|classify|running')
 m('C11', 'process.py', "        if identifier in self.info_map:\n            instance_info = self.info_map[identifier]\n            force_state", "        if identifier in self.running_identifiers:\n            instance_info = self.info_map[identifier]\n            force_state", 'C11.R5|forced|arbitration')
@@ -233,3 +237,15 @@ m('C20', 'statscompiler.py', "                self._push_mem_stats(mem)\n", "", 
 m('C20', 'statscompiler.py', "        if pid == 0:\n            # process has been stopped on Supervisord instance", "        if pid < 0:\n            # process has been stopped on Supervisord instance", 'C20.R4|drop|holder')
 m('C20', 'statscollector.py', "                self.processes.pop(idx)", "                self.processes.pop()", 'C20.R4|drop|collector')
 m('C20', 'statscompiler.py', "            if ref_in <= last_in and ref_out <= last_out:", "            if (ref_in, ref_out) <= (last_in, last_out):", 'C20.R5|wrap|io_statistics')
+
+# ---- obligations added with the third round of seeded changes
+m('C07', 'context.py', "        if status.has_active_state():\n            status.state = SupvisorsInstanceStates.FAILED", "        if status.running:\n            status.state = SupvisorsInstanceStates.FAILED", 'C07.R7|bus|on_instance_failure')
+m('C03', 'context.py', "            rules.starting_failure_strategy = application.rules.starting_failure_strategy\n", "", 'C03.R5|strategy|default-before-rules')
+m('C06', 'context.py', "            rules.running_failure_strategy = application.rules.running_failure_strategy\n", "", 'C06.R2|strategy|default-before-rules')
+m('C08', 'internal_com/supervisorproxy.py', "            self._proxy = None\n            # the proxy is marked disconnected", "            # the proxy is marked disconnected", 'C08.R7|proxy-renewed')
+m('C11', 'process.py', "                       'expected': False,\n", "", 'C11.R2|resynth|invalidate|payload')
+m('C15', 'application.py', "            if len(node.args) != 1 or node.keywords:", "            if not node.args or node.keywords:", 'C15.R4|sink|arity')
+m('C14', 'commander.py', "                                                self.get_process_identifiers(command.process),\n                                                load, load_request_map)", "                                                command.process.possible_identifiers(),\n                                                load, load_request_map)", 'C14.R4|distribution|on_command_added')
+m('C05', 'statemachine.py', "    def _master_enter(self) -> None:\n        \"\"\" When entering the CONCILIATION state, automatically conciliate the conflicts. \"\"\"", "    def enter(self) -> None:\n        \"\"\" When entering the CONCILIATION state, automatically conciliate the conflicts. \"\"\"", 'C05.R3|dispatch|enter')
+m('C20', 'statscompiler.py', "    while len(lst) > depth:\n        lst.pop(0)", "    if len(lst) > depth:\n        lst.pop(0)", 'C20.R1|trunc|definition')
+m('C20', 'statscompiler.py', "        if pid == 0:\n            # process has been stopped", "        if pid < 0:\n            # process has been stopped", 'C20.R4|drop|holder')
